@@ -119,6 +119,12 @@ Theorem range_strict_mono_partial_fixed_units : forall fuel iv u n j k x y,
 Proof. exact range_fixed_units_mono_l. Qed.
 Print Assumptions range_strict_mono_partial_fixed_units.
 
+Theorem range_finite_partial_fixed_units : forall iv u n,
+  wf_zone (dv_zone (iv_start iv)) = true -> dv_kind (iv_start iv) = K_AWARE -> 4 <= u <= 7 -> 1 <= n ->
+  exists fuel, snd (py_range fuel iv u n) <> GFuel.
+Proof. exact range_finite_fixed_units_l. Qed.
+Print Assumptions range_finite_partial_fixed_units.
+
 (* 13. every zone, years/months/weeks/days: the k-th value is the naive step pushed forward by the gap it lands in (C02 rule), and the range is
    strictly monotone on the wall clock (= Python's < for values of one zone) provided no step lands in a gap at least as long as the step *)
 Theorem range_wall_units_value : forall s u a x, wall_in_range (dv_W s) = true -> dv_kind s = K_AWARE -> 0 <= u <= 3 -> shift s u a = Ok x ->
